@@ -83,3 +83,49 @@ def run_eval(p):
         import traceback
 
         return {"error": f"{type(e).__name__}: {e}", "trace": traceback.format_exc()[-1200:]}
+
+
+def run_loader_lengths(p):
+    """real EvalBase.__call__ with an inner step that answers loader batch k with sequences of length lengths[k]"""
+    try:
+        import torch
+        from tensordict import TensorDict
+        from torch.utils.data import DataLoader
+
+        from rl4co.data.dataset import TensorDictDataset
+        from rl4co.envs.routing.tsp.env import TSPEnv
+        from rl4co.tasks.eval import GreedyEval
+
+        N, bs, lengths = p["N"], p["batch_size"], p["lengths"]
+        env = TSPEnv(generator_params={"num_loc": 3}, check_solution=False)
+        ds = TensorDictDataset(TensorDict({"locs": torch.rand(N, 3, 2)}, batch_size=[N]))
+        dl = DataLoader(ds, batch_size=bs, shuffle=False, collate_fn=ds.collate_fn)
+        nb = -(-N // bs)
+        Ls = [lengths[k % len(lengths)] for k in range(nb)]
+        seqs = {i: [100 * (i + 1) + t for t in range(Ls[i // bs])] for i in range(N)}
+        calls = [0]
+
+        def inner(policy, td, **kw):
+            k = calls[0]
+            calls[0] += 1
+            items = list(range(k * bs, min(N, (k + 1) * bs)))
+            return torch.tensor([seqs[i] for i in items]), torch.tensor([float(i) for i in items])
+
+        fn = GreedyEval(env, progress=False)
+        fn._inner = inner
+        pol = torch.nn.Linear(1, 1)
+        res = fn(pol, dl)
+        bad = []
+        Lmax = max(Ls)
+        if tuple(res["actions"].shape) != (N, Lmax):
+            bad.append(f"actions have shape {tuple(res['actions'].shape)}, expected {(N, Lmax)} (batch lengths {Ls})")
+        else:
+            for i in range(N):
+                want = seqs[i] + [0] * (Lmax - len(seqs[i]))
+                if res["actions"][i].tolist() != want or float(res["rewards"][i]) != float(i):
+                    bad.append(f"item {i}: reported actions {res['actions'][i].tolist()} / reward {float(res['rewards'][i])}, the evaluator's answer was {seqs[i]} / {float(i)} (batch lengths {Ls})")
+        return {"violations": bad[:3]}
+    except Exception as e:  # noqa: BLE001
+        import traceback
+
+        return {"violations": [f"EvalBase.__call__ raised on batches of different solution length: {type(e).__name__}: {str(e)[:150]}"], "trace": traceback.format_exc()[-800:]}
